@@ -1295,7 +1295,7 @@ def mon_c19(api, rng, budget, variants):
 
 PROPS['C19'] = {
     'targets': ['props/C19.vo'],
-    'theorems': [('props.C19', n) for n in ['c19_guard_is_bit0', 'c19_read_shape', 'c19_refused_iff_device_flag', 'c19_commands', 'c19_reset_reenables']]
+    'theorems': [('props.C19', n) for n in ['c19_guard_is_bit0', 'c19_refused_iff_device_flag', 'c19_commands', 'c19_reset_reenables']]
                 + [('props.C16', 'c16_every_history')],
     'corr_gen': lambda api, rng, n: fifo_power_programs(api, rng, n),
     'corr_n': (300, 4000), 'monitor': mon_c19, 'monitor_n': (600, 20000), 'judge': check_fifo_guard,
